@@ -29,5 +29,6 @@ for sd in seeds:
             print(sd, pid, cell, round(time.time() - t0), flush=True)
     finally:
         sh(['git', '-C', '/repo', 'checkout', '--', '.'])
+        sh(['git', '-C', ROOT, 'checkout', '--', 'evidence'])
     matrix[sd] = row
     json.dump(matrix, open(mp, 'w'), indent=1, sort_keys=True)
